@@ -48,6 +48,59 @@ def receiveMany (mx : Nat) (strict : Bool) : Nat → Bytes → List Bytes →
       | .error e => .error e
       | .ok (ps, b, c) => .ok (p :: ps, b, c)
 
+/-! ## The transport below the loop: reads are limited by the room the receiver offers
+
+`receive` above takes the script to be the reads as they happened. The two real receivers differ in
+how much room they offer to one read, which re-splits what the peer sent:
+* sync: `BufReader::new(reader)` — `fill_buf` reads into its 8 KiB buffer, all of it is appended;
+* async: `read_buf(read_buffer)` — at most the spare capacity of the `BytesMut` (after a `reserve`
+  when there is none), a quantity that depends on the allocation history.
+`receiveR` is the loop over a transport holding the peer's segments, parameterised by the room
+offered to the `k`-th read. -/
+
+/-- one read with room for `room` bytes from a transport holding the segments `chunks`:
+the bytes delivered and the transport afterwards (an exhausted transport delivers nothing = EOF) -/
+def readSome (room : Nat) : List Bytes → Bytes × List Bytes
+  | [] => ([], [])
+  | c :: cs => if c.length ≤ room then (c, cs) else (c.take room, c.drop room :: cs)
+
+/-- the receive loop with read counter `k`; fuel = an upper bound on the number of reads
+(`receiveWire` supplies one more than the number of bytes the transport still holds) -/
+def receiveR (mx : Nat) (strict : Bool) (rooms : Nat → Nat) :
+    Nat → Nat → Bytes → List Bytes → Except RecvErr (Pdu × Bytes × List Bytes × Nat)
+  | 0, _, _, _ => .error (.pdu .fuel)
+  | f + 1, k, buf, chunks =>
+    match readPdu mx strict buf with
+    | .ok (p, rest) => .ok (p, rest, chunks, k)
+    | .err e => .error (.pdu e)
+    | .inc =>
+      let d := (readSome (rooms k) chunks).1
+      if d.isEmpty then .error .closed
+      else receiveR mx strict rooms f (k + 1) (buf ++ d) (readSome (rooms k) chunks).2
+
+def receiveWire (mx : Nat) (strict : Bool) (rooms : Nat → Nat) (k : Nat) (buf : Bytes) (chunks : List Bytes) :
+    Except RecvErr (Pdu × Bytes × List Bytes × Nat) :=
+  receiveR mx strict rooms (chunks.flatten.length + 1) k buf chunks
+
+/-- `read_pdu_from_wire`: every read has the `BufReader`'s 8192 bytes of room -/
+def receiveSync (mx : Nat) (strict : Bool) := receiveWire mx strict (fun _ => 8192)
+
+/-- `read_pdu_from_wire_async`: the room of the `k`-th `read_buf` is whatever spare capacity the
+buffer has then — any positive number -/
+def receiveAsync (mx : Nat) (strict : Bool) (rooms : Nat → Nat) := receiveWire mx strict rooms
+
+/-- `n` successive receives over the same transport and buffer -/
+def receiveManyWire (mx : Nat) (strict : Bool) (rooms : Nat → Nat) : Nat → Nat → Bytes → List Bytes →
+    Except RecvErr (List Pdu × Bytes × List Bytes × Nat)
+  | 0, k, buf, chunks => .ok ([], buf, chunks, k)
+  | n + 1, k, buf, chunks =>
+    match receiveWire mx strict rooms k buf chunks with
+    | .error e => .error e
+    | .ok (p, buf', chunks', k') =>
+      match receiveManyWire mx strict rooms n k' buf' chunks' with
+      | .error e => .error e
+      | .ok (ps, b, c, k'') => .ok (p :: ps, b, c, k'')
+
 /-- what the sender puts on the wire for a sequence of PDUs -/
 def writeAll : List Pdu → W
   | [] => .ok []
